@@ -1,15 +1,17 @@
 import KinModel.Drv.Util
 import KinModel.Internalize
+import KinModel.Lemmas.C16Heaps
 open Lean
 namespace KinModel.Drv.C16
 open KinModel.Drv KinModel.Internalize
 
 def nats (js : List Json) : List Nat := js.map fun j => (j.getNat?).toOption.getD 0
 def getNats (j : Json) (k : String) : List Nat := nats (getArr j k)
+def getL (j : Json) (k : String) : List Char := (getStr j k).toList
 
 def parseCell (j : Json) : Cell :=
-  { k := getStr j "k", ref := getStr j "ref",
-    refPath := if getBool j "hasrp" then some (getStr j "rpp", getStr j "rpf") else none,
+  { k := getL j "k", ref := getL j "ref",
+    refPath := if getBool j "hasrp" then some (getL j "rpp", getL j "rpf") else none,
     val := getInt j "val" }
 
 def parseMT (j : Json) : MT :=
@@ -19,58 +21,105 @@ def parseOp (j : Json) : Op :=
   { rb := getInt j "rb", cbs := getNats j "cbs", resps := getNats j "resps", params := getNats j "params" }
 
 def parsePI (j : Json) : PI :=
-  { ref := getStr j "ref", params := getNats j "params", ops := (getArr j "ops").map parseOp }
+  { ref := getL j "ref", params := getNats j "params", ops := (getArr j "ops").map parseOp }
 
 def parseVal (j : Json) : Val :=
   { t := getStr j "t", cc := getStr j "cc", ch := getNats j "ch", schema := getInt j "schema",
     content := (getArr j "content").map parseMT, headers := getNats j "headers", links := getNats j "links",
-    items := getNats j "items" }
+    items := getNats j "items", pex := getNats j "pex",
+    dmap := (getArr j "dmap").map fun e => (getL e "t", getNat e "c") }
 
 def kinds : List String :=
   ["schemas", "parameters", "headers", "requestBodies", "responses", "securitySchemes", "examples", "links", "callbacks"]
 
 def parseHeap (j : Json) : Heap :=
   let cj := getD j "comps" Json.null
-  { root := if getBool j "hasurl" then some (getStr j "root") else none,
+  { root := if getBool j "hasurl" then some (getL j "root") else none,
     hasComp := getBool j "hascomp", validBefore := getBool j "valid",
     cells := ((getArr j "cells").map parseCell).toArray,
     vals := ((getArr j "vals").map parseVal).toArray,
     pis := ((getArr j "pis").map parsePI).toArray,
-    comps := kinds.map fun k => (k, (getArr cj k).map fun e => (getStr e "n", getNat e "c")),
+    comps := kinds.flatMap fun k => (getArr cj k).map fun e => (k.toList, getL e "n", getNat e "c"),
     paths := getNats j "paths" }
+
+/-- the heaps the witness / regression theorems of Props/C16.lean are about, by the tag of their corpus case: the reply
+tells whether the heap extracted from the real loader for that case still IS that heap -/
+def twins : List (String × Heap) :=
+  [("f17-underscore-vs-slash", Heaps.hCollision),
+   ("self-response", Heaps.hSelfResponse),
+   ("comp-link-external", Heaps.hSelfLink),
+   ("flag-dropped-inline-path-item-of-external-callback", Heaps.hFlagDropped),
+   ("ext-value-first-reached-internally", Heaps.hFirstReachedInternally),
+   ("param-example-external", Heaps.hParamExample),
+   ("header-example-in-imported-file", Heaps.hHeaderExampleImported),
+   ("discriminator-mapping-external", Heaps.hDiscriminator),
+   ("inline-callback-cycle", Heaps.hInlineCycle),
+   ("loader-unresolved-below-path-item-element-ref", Heaps.hLoaderUnresolved),
+   ("f41-encoding-header-ref", Heaps.hEncHeaderInternal),
+   ("enc-header-external", Heaps.hEncHeaderExternal),
+   ("wrongrefpath-link-empty-name", Heaps.hLinkWholeFile),
+   ("callback-cycle", Heaps.hCallbackCycle),
+   ("callback-cycle-via-paths", Heaps.hCallbackCycleViaPaths),
+   ("m1-shape-whole-and-element", Heaps.hWholeAndElement),
+   ("shared-header-twice", Heaps.hSharedHeader),
+   ("fix18-absolute-root-backref", Heaps.hAbsoluteBackref),
+   ("path-item-chain", Heaps.hPathItemChain)]
+
+def twinOf (j : Json) (h : Heap) : Json :=
+  match twins.find? (·.1 == getStr j "tag") with
+  | some (_, t) => Json.bool (decide (t = h))
+  | none => Json.null
+
+/-- what the layout contains (for the distribution printed into the evidence) -/
+def features (h : Heap) : List String :=
+  (if h.vals.toList.any (fun v => !v.pex.isEmpty) then ["has.parameter_or_header_examples"] else []) ++
+  (if h.vals.toList.any (fun v => !v.dmap.isEmpty) then ["has.discriminator_mapping"] else []) ++
+  (if h.vals.toList.any (fun v => v.content.any (fun m => m.enc.any (fun e => !e.isEmpty))) then ["has.encoding_headers"] else []) ++
+  (if h.pis.toList.any (fun p => !p.ref.isEmpty) then ["has.path_item_ref"] else []) ++
+  (if h.pis.toList.any (fun p => KinModel.RefName.isPrefix "#/paths/".toList p.ref) then ["has.path_item_ref_into_paths"] else []) ++
+  (if h.cells.toList.any (fun c => c.val < 0) then ["has.nil_value_cell"] else []) ++
+  (if h.vals.toList.any (fun v => !v.items.isEmpty) then ["has.callback"] else []) ++
+  (if (h.root.map (fun r => KinModel.RefName.isPrefix ['/'] r)).getD false then ["root.absolute"] else ["root.relative"])
+
+def strsOf (l : List (List Char)) : Json := jstrs (l.map String.ofList)
 
 /-- request: {root, files, heap}; only `heap` is read by the model -/
 def handle (j : Json) : Json :=
   let h := parseHeap (getD j "heap" Json.null)
-  let static : List String :=
-    (if UnwalkedRef h then ["UnwalkedRef"] else []) ++
-    (if SelfRefComponent h then ["SelfRefComponent"] else []) ++
-    (if WrongRefPath h then ["WrongRefPath"] else []) ++
-    (if CallbackCycle h then ["CallbackCycle"] else [])
   match internalize h with
   | .done s =>
     let ok := specB h s
-    let dyn : List String :=
+    -- the hypotheses of `spec_holds_partial` that fail on this input; the first four are the known-finding classes
+    let excl : List String :=
       (if NameCollision s then ["NameCollision"] else []) ++
-      (if StaleInternalRef h s then ["StaleInternalRef"] else [])
-    -- an exclusion class is reported only when the model predicts a failure; a failure no class explains is left bare
-    let excl := if ok then [] else static ++ dyn
+      (if SelfRefComponent h s then ["SelfRefComponent"] else []) ++
+      (if StaleInternalRef h s then ["StaleInternalRef"] else []) ++
+      (if UnwalkedExample h s then ["UnwalkedExample"] else []) ++
+      (if DiscriminatorMapping h s then ["DiscriminatorMapping"] else []) ++
+      (if InlinedCycle h s then ["InlinedCycle"] else []) ++
+      (if Unresolved h then ["Unresolved"] else []) ++
+      (if PathItemLeft h s then ["PathItemLeft"] else []) ++
+      (if EmptyName h s then ["EmptyName"] else []) ++
+      (if !kindsPlain h then ["KindWithSlash"] else [])
+    -- a class is reported only when the model predicts a failure (by `spec_holds_partial` at least one then holds)
+    let excl := if ok then [] else excl
     jobj [
-      ("model", jobj [("outcome", Json.str "done"), ("refs", jstrs s.refs.toList), ("pirefs", jstrs s.pirefs.toList),
-                      ("comps", jobj (kinds.map fun k => (k, jstrs ((compsOf s k).map (·.1))))),
-                      ("specok", Json.bool ok), ("ambiguous", Json.bool s.ambiguous)]),
+      ("model", jobj [("outcome", Json.str "done"), ("refs", strsOf s.refs.toList), ("pirefs", strsOf s.pirefs.toList),
+                      ("comps", jobj (kinds.map fun k => (k, strsOf ((compsOf s k.toList).map (·.1))))),
+                      ("specok", Json.bool ok), ("ambiguous", Json.bool s.ambiguous),
+                      ("cyclic", Json.bool (InlinedCycle h s)), ("twin", twinOf j h)]),
       ("spec", jobj [("ok", Json.bool true)]),
       ("excl", jstrs excl),
-      ("branches", jstrs (s.flags ++ (if ok then [] else ["spec.fails"])))]
+      ("branches", jstrs (s.flags ++ (if ok then [] else ["spec.fails"]) ++ (if s.flags.isEmpty then [] else features h)))]
   | .panic site =>
     jobj [("model", jobj [("outcome", Json.str "panic"), ("site", Json.str site), ("specok", Json.bool false)]),
           ("spec", jobj [("ok", Json.bool true)]),
-          ("excl", jstrs static),
+          ("excl", jstrs (if Unresolved h then ["Unresolved"] else [])),
           ("branches", jstrs ["panic"])]
   | .diverge =>
     jobj [("model", jobj [("outcome", Json.str "diverge"), ("specok", Json.bool false)]),
           ("spec", jobj [("ok", Json.bool true)]),
-          ("excl", jstrs static),
+          ("excl", jstrs []),
           ("branches", jstrs ["diverge"])]
 
 end KinModel.Drv.C16
